@@ -75,6 +75,9 @@ type Session struct {
 	// Observer, if set, is called (on the stepping thread, with the
 	// session unlocked) before every point of a managed thread.
 	Observer func(thread string, op, detail string)
+	// Resumed, if set, is called on the stepping thread right after it has
+	// been scheduled, immediately before it performs the operation.
+	Resumed func(thread string, op, detail string)
 
 	closed bool
 }
@@ -339,6 +342,13 @@ func (s *Session) step(t *thread, op, detail string, ready func() bool, lock *Mu
 	s.mu.Lock()
 	t.ready, t.lock = nil, nil
 	s.mu.Unlock()
+	if r := s.Resumed; r != nil {
+		// the thread is about to perform the operation: nothing else runs
+		// between this callback and the operation
+		t.inObserver = true
+		r(t.name, op, detail)
+		t.inObserver = false
+	}
 }
 
 // Step is a scheduling point for the calling goroutine if it is managed.
